@@ -12,6 +12,8 @@
 //!   split-isnull/-pkrange  bag(WHERE p AND s) + bag(WHERE p AND s') = bag(WHERE p) for a two-valued split s
 //!   commute-top/-all     AND/OR operands exchanged (at the root / at every node)
 //!   and-true and-1eq1 or-false true-and    neutral conjunct / disjunct added
+//!   and3-<place>[k] / or3-<place>[k]      for an AND (OR) root l,r: an always-true conjunct k in {1=1, TRUE, 'x'='x', 1<>2}
+//!                        (always-false disjunct {1=0, FALSE, 'x'='y', 1<>1}) placed mid / first / last / left-nested / right-nested
 //!   join-swapped join-on-commuted comma-vs-join comma-swapped join-select-permuted   (x join key kind)
 //!   select-permuted      select list permuted (compared up to the column permutation)
 //!   vector-where-vs-select  `WHERE (e <-> q) < r AND p` vs distances computed in the select list, filtered by the harness
@@ -433,6 +435,8 @@ impl<'a> Cx<'a> {
             Some("and-true") => sql.replace(" AND TRUE", " AND (b > 0.5)"),
             Some("commute") if self.group == "commute" && self.group_q >= 2 => sql.replacen(" AND ", " OR ", 1),
             Some("topk") => sql.replace("LIMIT 3", "LIMIT 2"),
+            // emulates a folding rule that forgets the conjunct after an always-true one: l AND 1=1 OR 1=0 AND r == l
+            Some("and3") => sql.replace(" AND 1=1 AND ", " AND 1=1 OR 1=0 AND "),
             Some("join") => sql.replace("FROM u JOIN t ON a = ua", "FROM u JOIN t ON a < ua"),
             _ => sql.to_string(),
         };
@@ -553,7 +557,7 @@ fn mirror(e: &Expr) -> Expr {
 // ---------------------------------------------------------------------------
 // rewrite groups
 // ---------------------------------------------------------------------------
-const GROUPS: [&str; 9] = ["partition", "nf-partition", "commute", "neutral", "join", "select-perm", "vector", "json", "window"];
+const GROUPS: [&str; 10] = ["partition", "nf-partition", "commute", "neutral", "neutral3", "join", "select-perm", "vector", "json", "window"];
 
 fn run_group(cx: &mut Cx, group: &'static str) {
     cx.group = group;
@@ -615,6 +619,34 @@ fn run_group(cx: &mut Cx, group: &'static str) {
                 let s = format!("SELECT id FROM {tb} WHERE {w}");
                 let o = cx.q(&s);
                 cx.same_bag(kind, &base_sql, &base, &s, &o);
+            }
+        }
+        "neutral3" => {
+            // three-operand placements of an always-true conjunct (always-false disjunct) around the two
+            // operands of an AND (OR) root: every placement must return the bag of `l AND r` (`l OR r`)
+            let (word, l, r, consts): (&str, &Expr, &Expr, [&str; 4]) = match cx.pred {
+                Expr::And(l, r) => ("AND", &**l, &**r, ["1=1", "TRUE", "'x'='x'", "1<>2"]),
+                Expr::Or(l, r) => ("OR", &**l, &**r, ["1=0", "FALSE", "'x'='y'", "1<>1"]),
+                _ => {
+                    cx.rep.count("neutral3_not_applicable", 1);
+                    return;
+                }
+            };
+            let (l, r) = (l.to_sql(), r.to_sql());
+            let pre = if word == "AND" { "and3" } else { "or3" };
+            let base = cx.q(&base_sql);
+            for k in consts {
+                for (place, w) in [
+                    ("mid", format!("({l} {word} {k} {word} {r})")),
+                    ("first", format!("({k} {word} {l} {word} {r})")),
+                    ("last", format!("({l} {word} {r} {word} {k})")),
+                    ("left-nested", format!("(({l} {word} {k}) {word} {r})")),
+                    ("right-nested", format!("({l} {word} ({k} {word} {r}))")),
+                ] {
+                    let s = format!("SELECT id FROM {tb} WHERE {w}");
+                    let o = cx.q(&s);
+                    cx.same_bag(&format!("{pre}-{place}[{k}]"), &base_sql, &base, &s, &o);
+                }
             }
         }
         "join" => {
@@ -946,7 +978,7 @@ impl Check for C19 {
         let mut s = Spec::new(
             "C19",
             "exploration",
-            "a case is one (predicate, table, set of rewrite groups): predicates are the C14 grammar (refmodel atoms/core_atoms over a INT, b REAL, c TEXT with NULLs; NOT/AND/OR trees, simplest first) over the 125-row cross-product table t, and the core plus 12 VECTOR/JSONB atoms over table d (same rows + e VECTOR(2), j JSONB); every case runs the base query and all its rewrites of the groups partition (p / NOT p / p IS NULL), nf-partition (p / p = FALSE / p IS NULL, split by a IS [NOT] NULL, split by id range), commute (root, all nodes), neutral (AND TRUE, AND 1=1, OR FALSE, TRUE AND), join (t JOIN u vs u JOIN t vs comma joins vs commuted ON vs permuted select list, on a nullable key and on the primary key), select-perm, vector (WHERE distance vs select-list distance; ORDER BY distance LIMIT k vs prefix of the full order), json (accessor in WHERE vs select list), window (COUNT(*) OVER()/ROW_NUMBER() vs plain, permuted select list, SUM OVER (PARTITION BY b) vs GROUP BY b). quick: all atoms and depth<=1 over the core with every group, depth<=1 over core+dialect atoms on d; thorough: additionally depth<=2 over a 10-atom mini core with every group and depth<=2 over the whole core with the single-table groups (time-capped). Distinct = distinct (predicate, table, groups); non-trivial = the base query returns a proper non-empty subset of the table.",
+            "a case is one (predicate, table, set of rewrite groups): predicates are the C14 grammar (refmodel atoms/core_atoms over a INT, b REAL, c TEXT with NULLs; NOT/AND/OR trees, simplest first) over the 125-row cross-product table t, and the core plus 12 VECTOR/JSONB atoms over table d (same rows + e VECTOR(2), j JSONB); every case runs the base query and all its rewrites of the groups partition (p / NOT p / p IS NULL), nf-partition (p / p = FALSE / p IS NULL, split by a IS [NOT] NULL, split by id range), commute (root, all nodes), neutral (AND TRUE, AND 1=1, OR FALSE, TRUE AND), neutral3 (for every AND/OR-rooted predicate l op r: an always-true conjunct / always-false disjunct from 4 spellings in 5 three-operand placements l k r, k l r, l r k, (l k) r, l (k r)), join (t JOIN u vs u JOIN t vs comma joins vs commuted ON vs permuted select list, on a nullable key and on the primary key), select-perm, vector (WHERE distance vs select-list distance; ORDER BY distance LIMIT k vs prefix of the full order), json (accessor in WHERE vs select list), window (COUNT(*) OVER()/ROW_NUMBER() vs plain, permuted select list, SUM OVER (PARTITION BY b) vs GROUP BY b). quick: all atoms and depth<=1 over the core with every group, depth<=1 over core+dialect atoms on d; thorough: additionally depth<=2 over a 10-atom mini core with every group and depth<=2 over the whole core with the single-table groups (time-capped). Distinct = distinct (predicate, table, groups); non-trivial = the base query returns a proper non-empty subset of the table.",
         );
         s.assumptions = &[
             "no reference model: only TurDB results are compared with each other, so a defect that affects both formulations identically is invisible here (C14 covers the absolute semantics)",
@@ -975,7 +1007,7 @@ impl Check for C19 {
         let mut dcore = core.clone();
         dcore.extend(dialect_atoms());
         rep.bound("atoms", json!({"all": all.len(), "core": core.len(), "dialect": dialect_atoms().len(), "mini_core": mini_core().len()}));
-        for c in ["predicates", "queries", "base_proper_subset", "rewrite.partition-not", "rewrite.partition-eqfalse", "rewrite.split-isnull", "rewrite.split-pkrange", "rewrite.commute-top", "rewrite.and-true", "rewrite.and-1eq1", "rewrite.or-false", "rewrite.true-and", "rewrite.join-swapped[nullable-key]", "rewrite.comma-vs-join[pk-key]", "rewrite.select-permuted", "rewrite.vector-where-vs-select", "rewrite.vector-topk", "rewrite.vector-topk[nonnull-keys]", "rewrite.json-where-vs-select", "rewrite.window-count-rownumber-vs-plain", "rewrite.window-sum-vs-groupby"] {
+        for c in ["predicates", "queries", "base_proper_subset", "rewrite.partition-not", "rewrite.partition-eqfalse", "rewrite.split-isnull", "rewrite.split-pkrange", "rewrite.commute-top", "rewrite.and-true", "rewrite.and-1eq1", "rewrite.or-false", "rewrite.true-and", "rewrite.and3-mid[1=1]", "rewrite.and3-mid[TRUE]", "rewrite.and3-mid['x'='x']", "rewrite.and3-mid[1<>2]", "rewrite.and3-first[1=1]", "rewrite.and3-last[1=1]", "rewrite.and3-left-nested[1=1]", "rewrite.and3-right-nested[1=1]", "rewrite.or3-mid[1=0]", "rewrite.or3-mid[FALSE]", "rewrite.or3-right-nested[1<>1]", "rewrite.join-swapped[nullable-key]", "rewrite.comma-vs-join[pk-key]", "rewrite.select-permuted", "rewrite.vector-where-vs-select", "rewrite.vector-topk", "rewrite.vector-topk[nonnull-keys]", "rewrite.json-where-vs-select", "rewrite.window-count-rownumber-vs-plain", "rewrite.window-sum-vs-groupby"] {
             rep.expect_nonzero(c);
         }
         // physical operators behind the rewritten queries (once, worker 0)
@@ -1002,8 +1034,8 @@ impl Check for C19 {
                 }
             }
         }
-        let single: [&'static str; 5] = ["nf-partition", "commute", "neutral", "select-perm", "window"];
-        let not_free_all: [&'static str; 6] = ["nf-partition", "commute", "neutral", "join", "select-perm", "window"];
+        let single: [&'static str; 6] = ["nf-partition", "commute", "neutral", "neutral3", "select-perm", "window"];
+        let not_free_all: [&'static str; 7] = ["nf-partition", "commute", "neutral", "neutral3", "join", "select-perm", "window"];
         let dgroups: [&'static str; 6] = ["nf-partition", "commute", "neutral", "select-perm", "vector", "json"];
         let part: [&'static str; 1] = ["partition"];
         let mut run = Run { ctx, idx: 0, since: 0, expired: false };
